@@ -1,5 +1,6 @@
 import BeyondVerif.Model.Cov
 import BeyondVerif.Generated.Frames
+import BeyondVerif.Generated.CovSetter
 import BeyondVerif.Lemmas.Local
 import Mathlib.LinearAlgebra.Matrix.PosDef
 import Mathlib.Algebra.Order.Star.Real
@@ -330,10 +331,36 @@ attached to the Earth-fixed frame**: in the orientation graph regenerated from o
 reachable from ITRF through links whose conversion carries no rotation rate are the rotating ones;
 the list `NONROT` used by the harness is the complement. -/
 theorem nonrotating_frames :
-    ∀ i, i < Generated.orientNames.length →
+    ∀ i, i < Generated.covOrientNames.length →
       (Generated.claimedNonRotating.contains i ↔
-        ¬ (closure Generated.orientLinks Generated.orientNames.length [Generated.itrfIndex]).contains i) := by
+        ¬ (closure Generated.covOrientLinks Generated.covOrientNames.length [Generated.itrfIndex]).contains i) := by
   decide +kernel
+
+/-! ## The model is the source: the setter translated from the AST of cov.py on every run -/
+
+/-- **The hand-written `setFrame` (what every theorem above and the driver are about) is the `Cov.frame` setter as
+translated statement by statement from the Python AST** (Generated/CovSetter.lean, rewritten on every run by
+`extract_setters`, which refuses any shape outside its grammar): a changed guard, branch condition, conversion direction,
+product order or write in cov.py changes `setFrameGen` and this theorem stops compiling. -/
+theorem setter_as_translated {F Mat Vec : Type} [DecidableEq F] (Env' : Env F Mat Vec) (s : St F Mat Vec) (t : Tag F) :
+    Generated.CovSetter.setFrameGen Env' s t = setFrame Env' s t := by
+  unfold Generated.CovSetter.setFrameGen setFrame hopMat m1 m2
+  by_cases h : t = s.tag
+  · simp [h]
+  · simp only [h, if_false]
+    cases s.tag <;> cases t <;> rfl
+
+/-- **Who writes what** (attribute writes of the methods, from the AST): `_orb_frame` is set by `Cov.__new__` and carried
+by `__array_finalize__`, and NOT by the `Cov.orb` setter that `sv.cov = c` goes through (`Cov.attach` leaves `orbFrame`
+alone for that reason); `Cov.copy` builds the copy from the private state copy.  With
+proposed_fixes/C14-attach-keeps-orb-frame.diff applied this theorem fails: the model then has to follow (`attachFix`). -/
+theorem writes_as_modelled :
+    Generated.CovSetter.newWrites = ["obj._data", "obj._frame", "obj.orb", "obj._orb_frame"] ∧
+    Generated.CovSetter.orbSetterWrites = ["del orb.cov", "self._data['orb']"] ∧
+    Generated.CovSetter.svCovSetterWrites = ["self._data['cov']", "self._data['cov'].orb"] ∧
+    Generated.CovSetter.finalizeWrites = ["self._data", "self._orb_frame"] ∧
+    Generated.CovSetter.copyBody = ["new = self.__class__(self.orb, np.array(self), frame=self.frame)",
+      "if frame is not None:\n    new.frame = frame", "return new"] := by decide
 
 /-! ## Non-vacuity: a concrete environment meeting every hypothesis -/
 
